@@ -6,16 +6,29 @@ from props import common, serdes
 def run(ctx):
     q = ctx.quick()
     cases, n = serdes.model(ctx, "any", 1 if q else 2)
+    # "not only serializer output" includes serializer output: the documented shape of every inhabitant (from the
+    # specification, not from the serializer under test) and its documented alternative encodings are inputs as well
+    import json
+    rt_cases, _ = serdes.model(ctx, "rt", 1)
+    extra = 0
+    with open(cases, "a") as out_f, open(rt_cases) as in_f:
+        for line in in_f:
+            c = json.loads(line)
+            if c["kind"] == "rt":
+                c = {"kind": "any", "ti": c["ti"], "v": c["v"], "exp": {"t": "ok", "x": c["x"]}}
+            out_f.write(json.dumps(c, separators=(",", ":")) + "\n")
+            extra += 1
     out, tres, events = serdes.run_harness(ctx, cases, 0, 40 if q else 400, "serde-any")
     serdes.report(ctx, out, tres, events, {"deserialize"}, {"de"})
-    ctx.cov["evaluations"] = out["any"] + out["hostile"]
-    ctx.cov["distinct_nontrivial"] = out["any"] + out["hostile"]
+    ctx.cov["evaluations"] = out["any"] + out["alt"] + out["hostile"]
+    ctx.cov["distinct_nontrivial"] = out["any"] + out["alt"] + out["hostile"]
+    ctx.cov["documented_shapes_and_alternatives_as_inputs"] = extra
     ctx.cov["hostile_values_x_types"] = out["hostile"]
     ctx.cov["traces_validated_against_impl"] = tres.events
     ctx.cov["exhaustive"] = True
     ctx.cov["rule"] = ("every S-expression value of bounded size over a 12-atom alphabet of every kind (incl. improper lists, vectors where "
                        "lists are expected and vice versa, alists with non-pair entries or improper tails, (variant . payload) forms) x every "
-                       "type of the family: from_value under catch_unwind; an error must be a data error; an accepted value x must satisfy "
+                       "type of the family, plus the documented shape of every TLC-enumerated inhabitant and its documented alternative encodings: from_value under catch_unwind; an error must be a data error; an accepted value x must satisfy "
                        "from_value(to_value(x)) = x; the accept/reject decision is compared with the type-directed reference RefDe where "
                        "the documentation determines it; the model itself is checked by TLC for 'accepted => normalised'. In addition a fixed "
                        "pool of hostile values (numbers at and beyond every width incl. 1e300, 3.5e38, infinities, NaN; 40-byte, CJK and emoji "
